@@ -19,6 +19,15 @@ func VerifH02a() {
 	OPS := vParam("OPS", 5)
 	conn := vNewConn(nil)
 	conn.failWriteAt = vChoose(3) - 1 // -1 never, 0 from the first, 1 from the second
+	// BIG=1: the fault may also be transient — exactly ONE Write call fails, the
+	// calls before and after it succeed — and a frame may carry a large payload
+	// (4096 bytes and one symbolic byte)
+	big := vParam("BIG", 0) == 1
+	if big && nondetBool() {
+		conn.failWriteAt = -1
+		conn.failWriteOnly = 1 + vChoose(4)
+		vReach("transient-write-failure")
+	}
 	w := buffer.NewWriter(slog.Default(), conn)
 	var want []byte
 	var cur []byte
@@ -53,6 +62,15 @@ func VerifH02a() {
 			cur = append(cur, byte(v>>24), byte(v>>16), byte(v>>8), byte(v))
 		case 4:
 			b := nondetBytes(vChoose(3))
+			if big && len(b) == 1 && nondetBool() {
+				large := make([]byte, 4097)
+				for i := range large {
+					large[i] = 'x'
+				}
+				large[4096] = b[0]
+				b = large
+				vReach("large-payload")
+			}
 			w.AddBytes(b)
 			cur = append(cur, b...)
 		case 5:
@@ -63,9 +81,11 @@ func VerifH02a() {
 			w.AddNullTerminate()
 			cur = append(cur, 0)
 		case 7: // End
+			failedBefore := conn.failedWrites
 			err := w.End()
-			attempt := conn.writes
-			fails := conn.failWriteAt >= 0 && attempt > conn.failWriteAt
+			// (black box: however many Write calls one End makes, it fails iff one
+			// of them did, and a failed End has put nothing on the wire)
+			fails := conn.failedWrites > failedBefore
 			if fails {
 				vAssert("failed-write-is-error", err != nil)
 				vReach("failed-write")
@@ -218,6 +238,15 @@ func VerifH05a() {
 		vAssert("written-reads-counter", dw.Written() == preWritten)
 		vAssert("columns-reads-columns", len(dw.Columns()) == nc)
 		vAssert("observers-emit-nothing", len(conn.out) == 0)
+	}
+	// whatever the operation was and however it ended, it leaves nothing behind
+	// in the connection's frame: the message written next arrives as it was built
+	if !transportDown {
+		mark := len(conn.out)
+		w.Start(types.ServerReady)
+		w.AddByte('I')
+		probe := w.End()
+		vAssert("message-after-the-operation-is-clean", probe == nil && vEqBytes(conn.out[mark:], []byte{'Z', 0, 0, 0, 5, 'I'}))
 	}
 }
 
